@@ -1,6 +1,14 @@
 import XProofs.Properties.C01
 #print axioms Properties.C01.C01_push_consistent
+#print axioms Properties.C01.C01_set_value
+#print axioms Properties.C01.C01_set_expr
+#print axioms Properties.C01.C01_histories
+#print axioms Properties.C01.C01_decided
+#print axioms Properties.C01.C01_tests_sound
+#print axioms Properties.C01.example_consistent
+#print axioms Properties.C01.C01_partial_scope_needed
 #print axioms Capstone.setValue_consistent
+#print axioms Capstone.consistent_of_order
 #print axioms Link.edge_of_inv
 #print axioms Link.start_of_inv
 #print axioms Unique.consistent_unique
